@@ -23,6 +23,8 @@ import cdd.docstring.parse  # noqa: E402
 import cdd.function.emit  # noqa: E402
 import cdd.function.parse  # noqa: E402
 import cdd.json_schema.emit  # noqa: E402
+import cdd.json_schema.parse  # noqa: E402
+import cdd.sqlalchemy.emit  # noqa: E402
 import cdd.shared.ast_utils  # noqa: E402
 from cdd.shared.source_transformer import to_code  # noqa: E402
 
@@ -74,6 +76,12 @@ def run_case(kind, payload):
             return json.dumps(cdd.json_schema.emit.json_schema(ir))
         if kind.startswith("docstring_emit_"):
             return cdd.docstring.emit.docstring(ir, docstring_format=kind.rsplit("_", 1)[1])
+        if kind.startswith("sqlalchemy"):
+            emit = getattr(cdd.sqlalchemy.emit, kind)
+            kw = {"name": "T"} if kind == "sqlalchemy_table" else {"class_name": "T"}
+            return to_code(emit(ir, **kw))
+        if kind == "json_schema_parse":
+            return canon_ir(cdd.json_schema.parse.json_schema(copy.deepcopy(payload)))
         if kind == "infer_imports":
             mod = ast.Module(body=[cdd.class_.emit.class_(ir, emit_call=False, class_name="C")], type_ignores=[])
             imps = cdd.shared.ast_utils.infer_imports(mod)
@@ -110,6 +118,20 @@ def cases(seed, n):
         kind = r.choice(["class_emit", "function_emit", "argparse_emit", "json_schema_emit", "docstring_emit_rest",
                          "docstring_emit_google", "docstring_emit_numpydoc", "infer_imports", "chain"])
         out.append((kind, ir))
+        # user-defined (unknown) type names shared between unrelated inputs: module-level tables must not learn from earlier calls
+        names = ["Customer", "Order", "Shipment"]
+        if i % 2 == 0:
+            u = r.choice(names)
+            ir2 = {"name": "T", "doc": "A table.", "returns": None, "type": "static", "params": {
+                "id": {"typ": "int", "doc": "[PK] the id"},
+                r.choice(["owner", "recipient"]): {"typ": r.choice([u, "Union[int, %s]" % u, "Optional[%s]" % u, "Union[%s, int]" % u]), "doc": "a reference"},
+                "n": {"typ": "int", "doc": "count", "default": 1}}}
+            from collections import OrderedDict
+            ir2["params"] = OrderedDict(ir2["params"])
+            out.append((r.choice(["sqlalchemy", "sqlalchemy_table", "sqlalchemy_hybrid"]), ir2))
+            out.append(("json_schema_parse", {"$id": "https://x/T.schema.json", "$schema": "https://json-schema.org/draft/2020-12/schema", "description": "A thing.",
+                                                "type": "object", "properties": {"items_": {"description": "things", "type": "array", "items": {"type": r.choice([u, "string", "integer"])}},
+                                                                                   "k": {"description": "a key", "type": "string"}}, "required": ["k"]}))
     return out
 
 
